@@ -211,6 +211,14 @@ func c05(c *an.Ctx) {
 				blk.AddEdge(ci.If.Block(), ci.False)
 			}
 		}
+		for _, op := range an.ChanOps(fn) {
+			if op.Kind == "close" && bgField(op.Chan, "doneCh") {
+				o.Site(op.Instr)
+				if an.Reach(fn, sel, blk)[op.Instr] {
+					o.FailAt(op.Instr, "doneCh can be closed while the group is still published in pendingBatchGroups (e.g. on the cancelled path): later callers on a live context join the finished group, their argument is never handed to Func.Many and they get the dead group's error")
+				}
+			}
+		}
 		if an.Reach(fn, sel, blk)[si] {
 			o.FailAt(si, "Func.Many can run while the group is still published in pendingBatchGroups: a later caller could join a batch whose arguments were already handed out and wait for a result that never contains its argument")
 		}
